@@ -529,7 +529,10 @@ Definition c08_event (raw : option config) (ms : mstate) (before : obs) (ev : ev
             if N.eqb k 0 then true
             else match aget (ms_home ms) k with
                  | Some i =>
-                     if o_slot_ready before i then true     (* home READY: C01 sends it home *)
+                     if o_slot_ready before i then
+                       (* home READY (again): every call for the key goes home *)
+                       (if ret_is_picked (ev_ret ev) then ret_picked_eq (ev_ret ev) (conn_of_slot before i) else true) &&
+                       (if is_latest ms pi then ret_picked_eq (ev_ret ev) (conn_of_slot before i) else true)
                      else if is_latest ms pi then
                        match aget (o_fb before) k with
                        | Some sc => ret_picked_eq (ev_ret ev) (Some sc)         (* sticky stand-in *)
